@@ -412,12 +412,15 @@ def get_plan(pid):
         jobs = [("eqhash.reflexive", "eqhash_law", {"which": "reflexive"})]
         jobs += [(f"eqhash.pairs.{k}", "eqhash_law", {"which": "pairs", "chunk": (k, 4)}) for k in range(4)]
         jobs += [(f"eqhash.triples.{k}", "eqhash_law", {"which": "triples", "chunk": (k, 10)}) for k in range(10)]
+        jobs.append(("eqhash.compound", "eqhash_law", {"which": "compound"}))
         return JobsPlan("C13", jobs, rtc=["eqhash"],
                         technique="finite case split over the classes with symbolic fields: ==/hash resolved by the modelled Python protocol on the real __eq__/__hash__ "
                                   "(dataclass-generated ones synthesised from the field flags in the AST); hash uninterpreted on values; z3",
                         trusted_base=["A-ENGINE", "A-DATACLASS: generated __init__/__eq__/__hash__ follow the field flags in the source",
                                       "A-STDLIB: the hash of a tuple is a function of the hashes of its items", "A-ORD", "A-TERM"],
-                        assumptions=["compound markers (MultiMarker/MarkerUnion/EqualityMarkerUnion/InequalityMultiMarker) and OrderedSet are covered by the bounded part only",
+                        assumptions=["compound markers (MultiMarker/MarkerUnion) and atom groups (EqualityMarkerUnion/InequalityMultiMarker with their OrderedSet): the induction step is proved - given children "
+                                     "on which == is an equivalence compatible with hash, the dataclass-generated ==/hash of the compound are again (law.C13.step.*); the induction principle over marker depth "
+                                     "itself is not machine-checked; interchangeability of compounds as operands is bounded",
                                      "interchangeability of MarkerExpression operands is decided by the read-set (frame) obligation: every field read by _evaluate/__str__/_get_specifier is compared by __eq__"])
     if pid in RTC_SUITES:
         return RtcPlan(pid, RTC_SUITES[pid])
